@@ -274,6 +274,22 @@ fn holed_definition_sweep() -> Sweep {
             }
         }
     }
+    // a hole inside one branch of a conditional type that is stuck on a parameter, met by the hole itself
+    for (i, t) in ["if b then int else w _ v", "if b then w _ v else int", "if b then int else (if b then int else w _ v)", "w _ v -> int", "w (w _ v) v"].iter().enumerate() {
+        for dom in ["@ -> int", "int -> @", "@"] {
+            let ty = dom.replace('@', &format!("({t})"));
+            fam.push(format!("(b : bool) => (w : (t : type) -> t -> type) => (r = g v; g : ({ty}) = z => 0; v : _ = 5; r)"));
+            fam.push(format!("(b : bool) => (w : (t : type) -> t -> type) => (g : ({ty}) = z => 0; v : _ = 5; g v)"));
+            if i == 0 {
+                fam.push(format!("(b : bool) =>
+(w : (t : type) -> t -> type) =>
+  r = g v
+  g : ({ty}) = z => 0
+  v : _ = 5
+  r"));
+            }
+        }
+    }
     fam.extend(crate::props::sem::late_hole_family());
     fam.extend(crate::props::sem::value_boundary_family(2));
     let fam = Rc::new(fam);
